@@ -8,20 +8,28 @@
 
    PROVED for every schedule and every oracle: message_conservation, stamps_unique (together:
    every sent message is in exactly one of event queue / command queue / arrival log),
-   and the refutation of spawner_gets_pid by the F71 schedule.
+   per_link_fifo / per_sender_fifo (the send sequence of a worker to a target IS arrival log ++
+   command queue ++ event queue, as lists), and the refutation of spawner_gets_pid by the F71
+   schedule.
    NOT PROVED (partial; full statements kept here):
-     per_sender_fifo      : forall nw sigma s, run (init nw) sigma = Good s -> forall i t,
-                            (messages stamped by worker i for target t) as logged by the sender =
-                            arrival log of t's worker ++ its command queue ++ worker i's event queue,
-                            each restricted to (i, t), as LISTS (order preserved on every hop).
-     spawner_gets_pid     : forall sigma, ~ StaleWake sigma -> run (init nw) sigma = Good s ->
-                            forall c, spawner_ok c s = true
-                            (StaleWake: some UpdateAwaitResults without results is handled while its
-                             awaiter is in `spawning` — the known class F71; refuted without it below).
-     no_lost_wakeup       : Inv_parked (DESIGN.md §5 C04) and its corollary quiescent_no_ready; the
-                            implementation-level quiescence oracle + wake-up probe of qv_sim check it
-                            on every explored run instead. *)
-From Quiver Require Import sys.Proto sys.ProtoMsg sys.ProtoFail sys.ProtoExamples.
+     arrival = mailbox    : forall sigma, run (init nw) sigma = Good s -> no message is ever dropped
+                            (w_dropped = []) and p_arrived of process t = the arrival log of its worker
+                            restricted to t (needs "a routed process exists or its SpawnProcess precedes
+                            every DeliverMessage to it in the same queue"; the handler lemma below shows
+                            the append for an existing process).
+     spawner_gets_pid     : the GLOBAL invariant form (c in `spawning` iff exactly one of {SpawnAction
+                            queued, NotifySpawn queued}) over whole schedules outside the F71 class.
+                            Proved instead, for every handler and every oracle: a process leaves
+                            `spawning` only through its NotifySpawn or through an UpdateAwaitResults
+                            without results (exactly the class F71; refuted without the exclusion
+                            below), the executor step never removes it, and the environment answers
+                            every SpawnAction with exactly one NotifySpawn carrying a fresh pid.
+     no_lost_wakeup       : the GLOBAL invariant Inv_parked (DESIGN.md §5 C04) and its corollary
+                            quiescent_no_ready. Proved instead: every wake-up source re-queues a
+                            parked select (message, awaited result, elapsed timeout); the
+                            implementation-level quiescence oracle + wake-up probe of qv_sim check the
+                            global statement on every explored run. *)
+From Quiver Require Import sys.Proto sys.ProtoMsg sys.ProtoFifo sys.ProtoFail sys.ProtoWake sys.ProtoExamples.
 
 (* every stamped message that was sent is — counted with multiplicity — in exactly one of: the
    arrival log of a worker (its DeliverMessage was handled), a command queue (DeliverMessage in
@@ -43,6 +51,28 @@ Theorem C04_stamps_unique : forall nw sigma s,
     Forall (fun e => m_w (snd e) = i /\ m_seq (snd e) < w_nsent (n_w nd)) (w_sentlog (n_w nd)).
 Proof. exact stamps_unique. Qed.
 Print Assumptions C04_stamps_unique.
+
+(* exactly-once AND in order on every link: for source worker i and target t routed to worker j, the
+   messages i sent to t (in sending order) are those that arrived at j, then those in j's command
+   queue, then those in i's event queue *)
+Theorem C04_per_link_fifo : forall nw sigma s,
+  0 < nw -> run (init nw) sigma = Good s ->
+  forall i ndi t j ndj,
+    nth_error (s_nodes s) i = Some ndi -> alookup t (e_router (s_env s)) = Some j -> nth_error (s_nodes s) j = Some ndj ->
+    ft t (w_sentlog (n_w ndi)) =
+    link i t (w_arrlog (n_w ndj)) ++ link i t (delivs (n_cmd ndj)) ++ ft t (edelivs (n_evt ndi)).
+Proof. exact per_link_fifo. Qed.
+Print Assumptions C04_per_link_fifo.
+
+(* per sender process p: what has arrived from p is a prefix of what p sent, in p's order *)
+Theorem C04_per_sender_fifo : forall nw sigma s,
+  0 < nw -> run (init nw) sigma = Good s ->
+  forall i ndi t j ndj p,
+    nth_error (s_nodes s) i = Some ndi -> alookup t (e_router (s_env s)) = Some j -> nth_error (s_nodes s) j = Some ndj ->
+    exists in_flight,
+      from p (ft t (w_sentlog (n_w ndi))) = from p (link i t (w_arrlog (n_w ndj))) ++ in_flight.
+Proof. exact per_sender_fifo. Qed.
+Print Assumptions C04_per_sender_fifo.
 
 (* one Worker::step, for every oracle: the commands it handles are a prefix of its queue, their
    DeliverMessage's extend the arrival log IN ORDER, and what it emits extends its send log and its
@@ -68,6 +98,60 @@ Theorem C04_spawner_gets_pid_refuted :
                         /\ p_res pr = Some (RErr 7)).
 Proof. exact spawner_gets_pid_refuted. Qed.
 Print Assumptions C04_spawner_gets_pid_refuted.
+
+(* spawner_gets_pid with the known class F71 made explicit: Worker::handle_command takes c out of
+   `spawning` only for c's NotifySpawn or for an UpdateAwaitResults for c without any result *)
+Theorem C04_spawning_left_only_by_notify_or_stale_update : forall cmd w w' ev c,
+  handle_cmd cmd w = Good (w', ev) ->
+  mem c (w_spawning w) = true -> mem c (w_spawning w') = false ->
+  (exists sp, cmd = CNotifySpawn c sp) \/
+  (exists rs, cmd = CUpdate c rs /\ existsb (fun e => match snd e with Some _ => true | None => false end) rs = false).
+Proof. exact spawning_left_only_by_notify_or_stale_update. Qed.
+Print Assumptions C04_spawning_left_only_by_notify_or_stale_update.
+
+Theorem C04_exec_step_keeps_spawning : forall i now o w w' ev,
+  exec_step i now o w = Good (w', ev) -> forall c, mem c (w_spawning w) = true -> mem c (w_spawning w') = true.
+Proof. exact exec_step_keeps_spawning. Qed.
+Print Assumptions C04_exec_step_keeps_spawning.
+
+Theorem C04_spawn_answered_once : forall nw caller e ns e' ns',
+  handle_event nw (ESpawnA caller) (e, ns) = Good (e', ns') ->
+  exists cw, alookup caller (e_router e') = Some cw /\
+    ns' = push_cmd cw (CNotifySpawn caller (e_next e)) (push_cmd (e_next e mod nw) (CSpawn (e_next e)) ns) /\
+    e_next e' = S (e_next e) /\ alookup (e_next e) (e_router e') = Some (e_next e mod nw).
+Proof. exact spawn_answered_once. Qed.
+Print Assumptions C04_spawn_answered_once.
+
+(* the F71 step itself *)
+Theorem C04_stale_update_wakes_spawner : forall c t w,
+  mem c (w_spawning w) = true ->
+  let w' := update_await c [(t, None)] w in
+  mem c (w_spawning w') = false /\ w_queue w' = w_queue w ++ [c].
+Proof. exact stale_update_wakes_spawner. Qed.
+Print Assumptions C04_stale_update_wakes_spawner.
+
+(* every wake-up source re-queues a parked select *)
+Theorem C04_wakeup_on_message : forall t m w w' ev pr,
+  alookup t (w_procs w) = Some pr -> mem t (w_selecting w) = true ->
+  handle_cmd (CDeliver t m) w = Good (w', ev) ->
+  w_queue w' = w_queue w ++ [t] /\ mem t (w_selecting w') = false /\
+  exists pr', alookup t (w_procs w') = Some pr' /\ p_mail pr' = p_mail pr ++ [m].
+Proof. exact wakeup_on_message. Qed.
+Print Assumptions C04_wakeup_on_message.
+
+Theorem C04_wakeup_on_result : forall awaiter t v w pr,
+  alookup awaiter (w_procs w) = Some pr -> mem awaiter (w_selecting w) = true ->
+  let w' := update_await awaiter [(t, Some (ROk v))] w in
+  w_queue w' = w_queue w ++ [awaiter] /\ mem awaiter (w_selecting w') = false /\
+  exists pr', alookup awaiter (w_procs w') = Some pr' /\ alookup t (p_awaiting pr') = Some (Some (ROk v)).
+Proof. exact wakeup_on_result. Qed.
+Print Assumptions C04_wakeup_on_result.
+
+Theorem C04_wakeup_on_timeout : forall now hint w w' p,
+  expire now hint w = Good w' -> mem p (w_selecting w) = true -> timed_out now w p = true ->
+  In p (w_queue w') /\ mem p (w_selecting w') = false.
+Proof. exact wakeup_on_timeout. Qed.
+Print Assumptions C04_wakeup_on_timeout.
 
 (* non-vacuity: a 3-process fan-in mid-flight — one message arrived, one in a command queue, one in
    an event queue *)
